@@ -17,17 +17,40 @@ def values_of(hps):
     return sorted((k, canon(v)) for k, v in hps.values.items())
 
 
-def run_history(sc):
-    """a deterministic worker-pool history with hyperparameters discovered inside trials"""
+def run_history(sc, phase="full"):
+    """a deterministic worker-pool history with hyperparameters discovered inside trials.
+    Resume scenarios (sc["split"] = K): phase "inproc" saves nothing extra and, after step K-1, reloads the project into a fresh
+    oracle object of the same process (the workers are gone: nothing is held); phase "first" runs steps 0..K-1 in this
+    interpreter and leaves the project directory and the schedule generator's state behind; phase "second" - another
+    interpreter with another PYTHONHASHSEED - reloads that directory and runs steps K.. . The three must issue the same trials."""
     from ktverif import lifecycle as lc
     from keras_tuner.engine import hyperparameters as hpm
+    import pickle
     cfg = sc["cfg"]
-    d = tempfile.mkdtemp(prefix="ktv12_")
+    split = sc.get("split")
+    keep = phase in ("first", "second")
+    d = sc["dir"] if keep else tempfile.mkdtemp(prefix="ktv12_")
     out = []
     try:
-        o = lc.make_oracle(cfg, d)
-        rng = random.Random(cfg["hseed"]); held = {}
-        for step in range(cfg["nsteps"]):
+        if phase == "second":
+            o = lc.make_oracle(cfg, d); o.reload()
+            rng = random.Random(0); rng.setstate(pickle.load(open(os.path.join(d, "sched.pickle"), "rb"))); held = {}
+            first_step = split
+        else:
+            if keep:
+                shutil.rmtree(d, ignore_errors=True); os.makedirs(d)
+            o = lc.make_oracle(cfg, d)
+            rng = random.Random(cfg["hseed"]); held = {}
+            first_step = 0
+        for step in range(first_step, cfg["nsteps"]):
+            if split is not None and step == split and phase == "inproc":
+                lc._release(o)
+                o = lc.make_oracle(cfg, d); o.reload(); held = {}
+                out.append(["reload"])
+            if split is not None and step == split and phase == "first":
+                pickle.dump(rng.getstate(), open(os.path.join(d, "sched.pickle"), "wb"))
+                out.append(["reload"])
+                return out
             w = rng.randrange(cfg["W"]); tn = "w%d" % w
             if tn in held and rng.random() < 0.7:
                 t = held.pop(tn)
@@ -62,7 +85,8 @@ def run_history(sc):
         out.append(["space", [h.name for h in o.hyperparameters.space]])
         return out
     finally:
-        shutil.rmtree(d, ignore_errors=True)
+        if not keep:
+            shutil.rmtree(d, ignore_errors=True)
 
 
 def run_hb_grow(sc):
@@ -132,12 +156,18 @@ def run_discovery(sc):
 def main():
     salt = int(sys.argv[1])
     scenarios = json.load(open(sys.argv[2]))
+    phase = sys.argv[3] if len(sys.argv) > 3 else "full"
     import numpy as np
     res = []
     for k, sc in enumerate(scenarios):
         random.seed(salt * 1000 + k); np.random.seed((salt * 1000 + k) % (2 ** 31))
         try:
-            res.append(run_history(sc) if sc["type"] == "history" else run_hb_grow(sc) if sc["type"] == "hb_grow" else run_discovery(sc))
+            if sc["type"] == "resume":
+                res.append(run_history(sc, "inproc" if phase == "full" else phase))
+            elif phase != "full":
+                res.append([])
+            else:
+                res.append(run_history(sc) if sc["type"] == "history" else run_hb_grow(sc) if sc["type"] == "hb_grow" else run_discovery(sc))
         except Exception as e:
             res.append([["harness-exception", type(e).__name__, str(e)[:200]]])
     print("C12RESULT " + json.dumps(res))
